@@ -32,6 +32,9 @@ CLAIMS = {
  'C06': ("Decides the receive gate as a finite table: for every method key of serverMethodInfos (+ one unknown) × {initialized} × {new protocol}, a three-valued predicate-abstraction reachability over ServerSession.handle's own CFG determines whether the handler dispatch is reachable and which rejections precede it, and compares that with the table the statement dictates; plus: metadata validation and the version gate dominate dispatch (and state adoption), failure codes -32602/-32022 with the supported list, new-protocol acceptance only after clientCapabilities decoded, and every writer of the lifecycle state is one of the guarded transitions whose rejections sit on non-writing branches. "
          "Not decided: the composed behaviour over arbitrary message sequences (both factors are checked, not their explored product).",
          "predicate-abstraction reachability on the CFG (Kleene evaluation of branch conditions), table extraction from composite literals, field-writer ownership with guard dominance", "§3 C06"),
+ 'C07': ("Thin structural claim: the negotiation helpers can only return entries of the (descending, constant) version table, the initialize path never 2026-07-28; every transport implementing the version filter definitely refuses >= 2026-07-28 unless it is a stateless streamable transport (three-valued evaluation of its returns); the server stores the transport-filtered list before returning the session and discover advertises it; the client returns a session only after discover succeeded (non-empty, >= 2026-07-28) or after finding the initialize result's version in the table, closes the session on every failed handshake step, falls back to a legacy constant with a bounded discover loop; stateful HTTP rejects new-protocol requests with -32022 listing legacy versions; the shared table never escapes un-cloned. "
+         "Not decided: the configuration matrix itself (which cell negotiates what; that a connected session can list and call tools).",
+         "return-value range analysis over constants and guards, three-valued CFG evaluation, escape/alias rule for the shared table", "§3 C07"),
 }
 
 REASONS = {}
